@@ -1,5 +1,7 @@
 (* Driver for the extracted check-tail model (Check/*.v): same line protocol as harness sgv-check
    for the library-level commands, plus step / ffsub / ffseq which only the model answers.
+   Library-level baselines arrive as the harness builds them (Baseline::set_* normalise the key:
+   rekey) and are read back from the saved file (Baseline::load: rekey again).
    Fields are tab-separated; lists use ';' ('_' = empty list, 'N' = no baseline); records ':';
    strings are comma-separated scalar values ('-' = empty). *)
 open Check_ex
@@ -61,13 +63,14 @@ let () =
       | ["exit"; rs; fl] ->
         print_endline (string_of_int (int_of_n (determine_exit_code (dlist parse_result rs) (b fl.[0]) (b fl.[1]) (b fl.[2]))))
       | ["apply"; rs; bl] ->
-        print_endline (statuses (apply_baseline_comparison (dlist parse_result rs) (parse_bl bl)))
+        print_endline (statuses (apply_baseline_comparison (dlist parse_result rs) (rekey (parse_bl bl))))
       | ["ratchet"; rs; bl] ->
-        print_endline (fmt_keys (check_baseline_ratchet (dlist parse_result rs) (parse_bl bl)))
+        print_endline (fmt_keys (check_baseline_ratchet (dlist parse_result rs) (rekey (parse_bl bl))))
       | ["tighten"; bl; ks] ->
-        print_endline (fmt_bl (tighten_baseline (parse_bl bl) (dlist dec ks)))
+        print_endline (fmt_bl (rekey (tighten_baseline (rekey (parse_bl bl)) (dlist dec ks))))
       | ["update"; rs; m; obl] ->
-        print_endline (fmt_bl (update_baseline_from_results (dlist parse_result rs) (parse_umode m) (parse_obl obl)))
+        let ex = match parse_obl obl with None -> None | Some b -> Some (rekey b) in
+        print_endline (fmt_bl (rekey (update_baseline_from_results (dlist parse_result rs) (parse_umode m) ex)))
       | ["step"; fl; rs; dirs; disk] ->
         let o = check_step (parse_flags fl) (dlist parse_result rs) (dlist dec dirs) (parse_obl disk) in
         Printf.printf "%s\t%d\t%s\t%s\n" (statuses o.o_results) (int_of_n o.o_exit) (fmt_obl o.o_disk) (fmt_keys o.o_stale)
